@@ -229,6 +229,10 @@ func run() {
 		case "close":
 			os.Stdout.Close()
 			select {}
+		case "closeboth":
+			os.Stdout.Close()
+			os.Stderr.Close()
+			select {}
 		default:
 			select {}
 		}
